@@ -613,6 +613,44 @@ func init() {
 				}
 			}
 		}
+		// (f) a template FUNCTION defined once in a shared parent context (a prelude rendered there) and called -
+		// recursively - by many goroutines executing one template in children of that parent
+		{
+			parent := plush.NewContext()
+			if _, err := plush.Render(`<% let down = fn(n) { if (n == 0) { return "bottom" } return down(n - 1) } %><% let twice = fn(s) { return s + s } %>`, parent); err != nil {
+				e.Violate("c14-output-differs", fmt.Sprintf("prelude: %v", err), nil)
+			}
+			t, err := plush.NewTemplate(`<%= down(60) %>|<%= twice("ab") %>|<%= for (i) in [1, 2] { %><%= down(i) %><% } %>`)
+			if err == nil {
+				for _, G := range []int{4, 16} {
+					outs := make([]string, G)
+					errs := make([]error, G)
+					start := make(chan struct{})
+					var wg sync.WaitGroup
+					for g := 0; g < G; g++ {
+						wg.Add(1)
+						go func(g int) {
+							defer wg.Done()
+							<-start
+							for rep := 0; rep < 5; rep++ {
+								outs[g], errs[g] = t.Exec(parent.New())
+							}
+						}(g)
+					}
+					close(start)
+					c14wait(e, &wg)
+					e.rep.Evaluations += G
+					e.Count("shared-template-function")
+					e.Distinct(fmt.Sprintf("sharedfn/%d", G))
+					for g := 0; g < G; g++ {
+						if errs[g] != nil || outs[g] != "bottom|abab|bottombottom" {
+							e.Violate("c14-output-differs", fmt.Sprintf("a function defined in a shared parent, called from %d goroutines: goroutine %d got %q, %v", G, g, outs[g], errs[g]), map[string]interface{}{"goroutines": G})
+							break
+						}
+					}
+				}
+			}
+		}
 		// (c3) a Template built as a literal is parsed by its first Exec: all goroutines make that first
 		// call (and Clone it) at the same moment
 		for round := 0; round < 6; round++ {
